@@ -609,7 +609,12 @@ mod real {
                 let _ = sock.set_read_timeout(Some(if a[3] == "~" { Duration::from_millis(300) } else { LONG }));
                 let mut buf = vec![0u8; 70000];
                 let r = match sock.recv_from(&mut buf) {
-                    Ok((n, from)) if from == local(p.port) => format!("ok 1 {}", hex(&buf[..n])),
+                    Ok((n, from)) if from == local(p.port) => {
+                        let first = hex(&buf[..n]);
+                        let _ = sock.set_read_timeout(Some(Duration::from_millis(150)));
+                        let more = if sock.recv_from(&mut buf).is_ok() { 2 } else { 1 };
+                        format!("ok {more} {first}")
+                    }
                     Ok(_) => "err:wrong-source".into(),
                     Err(_) => "ok 0 -".into(),
                 };
